@@ -172,23 +172,30 @@ def h_gates(ctx, cfg):
         return out
     base = run()
     saved = [(m, k, getattr(m, k)) for m, k in gates]
-    real_vi = sys.version_info
+    saved_sys = [(m, m.sys) for m in mods if hasattr(m, "sys")]
+
+    class FakeSys:
+        """stands for the `sys` module inside the library's modules: only version_info differs"""
+
+        def __init__(self, vi):
+            self.version_info = vi
+
+        def __getattr__(self, name):
+            return getattr(sys, name)
     try:
         for m, k, v in saved:
             setattr(m, k, not v)
         for other in ((3, 7, 16, "final", 0), (3, 10, 13, "final", 0), (3, 13, 0, "final", 0)):
-            for m in mods:
-                if hasattr(m, "sys") and isinstance(getattr(m, "sys"), _t.SimpleNamespace):
-                    m.sys.version_info = other[:2]
+            for m, _ in saved_sys:
+                m.sys = FakeSys(other)
             flipped = run()
             ctx.prove("same_results_with_gates_flipped_and_version_%d.%d" % other[:2], z3.BoolVal(flipped == base),
                       detail=repr([a[0] for a, b in zip(base, flipped) if a != b][:3]))
     finally:
         for m, k, v in saved:
             setattr(m, k, v)
-        for m in mods:
-            if hasattr(m, "sys") and isinstance(getattr(m, "sys"), _t.SimpleNamespace):
-                m.sys.version_info = cfg.vt
+        for m, old in saved_sys:
+            m.sys = old
 
 
 @harness("config.version_gates_as_written", props=["C01", "C02", "C03", "C10", "C13"], functions=["code_data._blocks._ATLEAST_310", "code_data._line_mapping.USE_LINETABLE", "code_data._code_data (sys.version_info tests)"],
